@@ -197,7 +197,7 @@ def must_pass(body, src, dsts, through, avoid_edges=frozenset(), include_start=T
     return not hit
 
 
-def switch_edges_on_call_result(body, call_pos):
+def switch_edges_on_call_result(body, call_pos, proj=None):
     """for a call at call_pos returning bool/Option etc into local r, find the switch that tests r (possibly
     via `discriminant(r)` or a copy) and return (switch_block, {value: target}, else_target)."""
     t = body.blocks[call_pos[0]]['term']
@@ -205,6 +205,13 @@ def switch_edges_on_call_result(body, call_pos):
         return None
     r = t['dst']['l']
     locs = forward_taint(body, {r}, through_refs=True)
+    if proj is not None:
+        # the tested value is one field of the (tuple) result: _x = _r.<proj>
+        sel = set()
+        for pos, s in body.iter_stmts():
+            if s['k'] == 'assign' and not s['dst']['p'] and s['rv']['k'] == 'use' and is_local_op(s['rv']['o']) and s['rv']['o']['l'] in locs and s['rv']['o']['p'] == [proj]:
+                sel.add(s['dst']['l'])
+        locs = forward_taint(body, sel, through_refs=True) if sel else set()
     # discriminant reads
     for pos, s in body.iter_stmts():
         if s['k'] == 'assign' and s['rv']['k'] == 'discr' and s['rv']['pl']['l'] in locs and not s['dst']['p']:
